@@ -11,6 +11,11 @@
 (*           (invariant IterMatches), kept explicitly so that properties about steps     *)
 (*           read it from both states                                                    *)
 (*   mode  : AddResult.Mode of the last addition                                         *)
+(*   cpath : the snapshot path cached by ObjectTree.SnapshotPath(), kept only while it is *)
+(*           STALE (<<>> = nothing cached or the cache is the path of the current root -  *)
+(*           both answer the same).  The cache is reused only while it starts at the      *)
+(*           current root (snapshotPathIsActual); a rebuild that moves the root back to   *)
+(*           an older snapshot leaves a stale cache behind until the next call            *)
 (*   amb   : sticky flag, see ObjTree!ForeignBetween                                     *)
 (* Writers (replicas in Writers) are the honest writers of the design: they add changes  *)
 (* on their heads (AddContent), optionally as snapshots.  Every replica (writers and pure*)
@@ -34,7 +39,9 @@ CONSTANTS Replicas,     \* all trees
           AllowNoPath,  \* payloads without snapshot path (the response-collector path)
           AllowStale,   \* batches may contain changes the receiver already holds
           WholeOnly,    \* deliveries carry everything the sender stores, in stored order (larger universes)
-          Sizes         \* abstract sizes a new change can have (C09)
+          Sizes,        \* abstract sizes a new change can have (C09)
+          Dev_StalePathReuse \* deviation (FALSE = the code): reuse the cached snapshot path while it merely
+                        \* contains the current root
 
 VARIABLES rep           \* replica state
 vars == <<ch, rep>>
@@ -43,7 +50,7 @@ Ids == 1..MaxC
 
 RootRec == [prev |-> {}, snap |-> Root, isSnap |-> TRUE, anc |-> {}, sc |-> 1, size |-> 1]
 FreshRep == [store |-> <<Root>>, root |-> Root, att |-> {Root}, iter |-> <<Root>>,
-             mode |-> "Nothing", amb |-> FALSE]
+             mode |-> "Nothing", amb |-> FALSE, cpath |-> <<>>]
 
 Init == /\ ch = (Root :> RootRec)
         /\ rep = [r \in Replicas |-> FreshRep]
@@ -53,7 +60,15 @@ Iter(st)     == st.iter                             \* IterateRoot
 TreeSet(st)  == SeqSet(st.iter)
 TreeHeads(st) == HeadsOf(TreeSet(st))               \* ObjectTree.Heads()
 LastIter(st) == st.iter[Len(st.iter)]               \* Tree.lastIteratedHeadId
-PathOf(st)   == SPath(st.root)                      \* ObjectTree.SnapshotPath()
+\* ObjectTree.SnapshotPath(): the cached path if it is actual (snapshotPathIsActual), else the chain
+\* of snapshot ids read from storage starting at the tree root
+PathIsCachedActual(st) ==
+    st.cpath # <<>> /\ (IF Dev_StalePathReuse THEN st.root \in SeqSet(st.cpath) ELSE st.cpath[1] = st.root)
+PathOf(st)   == IF PathIsCachedActual(st) THEN st.cpath ELSE SPath(st.root)
+\* ... and it caches what it returns; a cache that is the path of the current root is written <<>>
+NormPath(root, p) == IF p # <<>> /\ p[1] = root THEN <<>> ELSE p
+Touch(st)    == [st EXCEPT !.cpath = NormPath(st.root, PathOf(st))]
+StalePath(st) == st.cpath # <<>> /\ st.cpath[1] # st.root
 
 (* ------------------------------ AddContent ------------------------------ *)
 \* objecttree.go AddContentWithValidator: parents = heads, snapshot base = tree root, order id =
@@ -77,7 +92,11 @@ Add(w, id, snapshot, sz) ==
                      att   |-> IF snapshot THEN {id} ELSE st.att \cup {id},
                      iter  |-> IF snapshot THEN <<id>> ELSE Append(st.iter, id),
                      mode  |-> IF snapshot THEN "Rebuild" ELSE "Append",
-                     amb   |-> st.amb \/ ~atEnd]]
+                     amb   |-> st.amb \/ ~atEnd,
+                     \* syncTree.AddContent: CreateHeadUpdate calls SnapshotPath() on the new tree
+                     cpath |-> LET nr == IF snapshot THEN id ELSE st.root
+                                   IN IF Dev_StalePathReuse /\ st.cpath # <<>> /\ nr \in SeqSet(st.cpath)
+                                      THEN st.cpath ELSE <<>>]]
 
 (* ------------------------------ AddRawChanges ------------------------------ *)
 \* objecttree.go addChangesToTree + AddRawChangesWithUpdater, as an operator on a replica state
@@ -107,7 +126,9 @@ DeliverTo(st, B, theirHeads, theirPath) ==
             att   |-> IF back THEN att1 \ Anc(st.root) ELSE att1,
             iter  |-> IF back THEN CanonOrder(st.root, att1 \ Anc(st.root)) ELSE iter1,
             mode  |-> "Rebuild",
-            amb   |-> st.amb \/ ForeignBetween(st.store, iter1)]
+            amb   |-> st.amb \/ ForeignBetween(st.store, iter1),
+            \* SnapshotPath() was called (and cached) before the rebuild: stale if the root moved
+            cpath |-> NormPath(IF back THEN st.root ELSE snapshot, PathOf(st))]
     ELSE
         \* ---- Tree.Add + FlushAfterBuild (reduceTree)
         LET att1  == AttachClosure(st.att, fresh)
@@ -126,7 +147,8 @@ DeliverTo(st, B, theirHeads, theirPath) ==
                att   |-> att2,
                iter  |-> IF root2 = st.root THEN iter1 ELSE CanonOrder(root2, att2),
                mode  |-> IF L \notin att2 THEN "Rebuild" ELSE modeA,
-               amb   |-> st.amb \/ ForeignBetween(st.store, iter1)]
+               amb   |-> st.amb \/ ForeignBetween(st.store, iter1),
+               cpath |-> st.cpath]
 
 \* the batches a sender can produce from what it stores
 BatchesOf(store, n) ==
@@ -143,7 +165,7 @@ Deliver(dst, src, B, withPath) ==
        /\ withPath \/ AllowNoPath
        /\ AllowStale \/ SeqSet(B) \cap StoreSet(st) = {}
        /\ SeqSet(B) \ st.att # {}                \* something the tree does not hold in memory
-       /\ rep' = [rep EXCEPT ![dst] = st2]
+       /\ rep' = [rep EXCEPT ![dst] = st2, ![src] = IF withPath THEN Touch(snd) ELSE snd]
        /\ UNCHANGED ch
 
 (* ------------------------------ rejected batches ------------------------------ *)
@@ -172,7 +194,7 @@ ReopenOf(st) ==
 
 RejectedBy(st, B, theirHeads, theirPath, bad) == bad \in WouldAttach(st, B, theirHeads, theirPath).new
 RejectTo(st, B, theirHeads, theirPath) ==
-    IF WouldAttach(st, B, theirHeads, theirPath).rebuild THEN ReopenOf(st) ELSE st
+    IF WouldAttach(st, B, theirHeads, theirPath).rebuild THEN Touch(ReopenOf(st)) ELSE st
 
 DeliverRejected(dst, src, B, withPath, bad) ==
     LET st   == rep[dst]
@@ -182,13 +204,14 @@ DeliverRejected(dst, src, B, withPath, bad) ==
        /\ withPath \/ AllowNoPath
        /\ AllowStale \/ SeqSet(B) \cap StoreSet(st) = {}
        /\ RejectedBy(st, B, TreeHeads(snd), path, bad)
-       /\ rep' = [rep EXCEPT ![dst] = RejectTo(st, B, TreeHeads(snd), path)]
+       /\ rep' = [rep EXCEPT ![dst] = RejectTo(st, B, TreeHeads(snd), path),
+                            ![src] = IF withPath THEN Touch(snd) ELSE snd]
        /\ UNCHANGED ch
 
 (* ------------------------------ close + reopen ------------------------------ *)
 \* BuildObjectTree on the same storage: buildWithAdded with the persisted common snapshot (ReopenOf)
 Reopen(r) ==
-    /\ rep' = [rep EXCEPT ![r] = ReopenOf(rep[r])]
+    /\ rep' = [rep EXCEPT ![r] = [ReopenOf(rep[r]) EXCEPT !.cpath = <<>>]]   \* a new objectTree: nothing cached
     /\ UNCHANGED ch
 
 Next ==
@@ -231,6 +254,9 @@ Closed ==
         /\ TreeSet(rep[r]) = rep[r].att
         /\ rep[r].iter = CanonOrder(rep[r].root, rep[r].att)        \* IterMatches
         /\ rep[r].att = DescEqIn(rep[r].root, StoreSet(rep[r]))
+
+\* the snapshot path a tree reports (and uses to find common snapshots) is the one of its root
+PathIsActual == \A r \in Replicas : PathOf(rep[r]) = SPath(rep[r].root)
 
 \* the placement of new order ids never depended on the numeric value of the ids
 Unambiguous == \A r \in Replicas : ~rep[r].amb
@@ -284,7 +310,7 @@ SnapshotDominates ==
         /\ Snap(c) \in Anc(c) /\ IsSnap(Snap(c))
         /\ \A a \in Anc(c) : Snap(c) \in AncEq(a) \/ a \in Anc(Snap(c))
 
-Inv == TypeOK /\ Closed /\ Unambiguous /\ StoreOrderIsCanon /\ IterIsCanonRestricted /\ CausalOrder
+Inv == TypeOK /\ Closed /\ PathIsActual /\ Unambiguous /\ StoreOrderIsCanon /\ IterIsCanonRestricted /\ CausalOrder
        /\ ArrivalIndependent /\ ReopenEqualsLive /\ HeadsAreMaximal /\ SnapshotDominates
 
 \* when an addition reports Append, the previously presented sequence is a prefix of the new one;
